@@ -54,11 +54,11 @@ OUTSIDE = ['labels longer than the (G)/(M) bounds are covered only through '
            'indent > 5 (used only in " " * column)']
 
 ROLES = [':r', ':', ':r-of~e.1']
-ATOMS = ['b', None, '"x (y) / : ~ # \\" \\t \\\\ z"', 'c~2,3']
+ATOMS = ['b', None, '"x (y) / : ~ # \\" \\t \\\\ \tz"', 'c~2,3']
 CONCEPTS = [NO_CONCEPT, None, 'y~1']
 INDENTS = [None, -1, 0, 1, 2, 3, 5]
 METAS = [{}, {'id': '1'},
-         {'snt': 'a b  c', 'id': 'x ; (y) " # : z', 'e': ''}]
+         {'snt': 'a b \t c', 'id': 'x ; (y) " # : z', 'e': ''}]
 
 
 def token_sig(text):
